@@ -79,6 +79,29 @@ def text_obs(fn):
         return [-1, H.err_class(e)]
 
 
+HM, HP = (1 << 61) - 1, 65599          # hash = polynomial mod 2^61 (bit mask HM), as CaseC16.hstep
+
+
+def hash_text(h, t):
+    for ch in t:
+        h = (h * HP + ord(ch) + 1) & HM
+    return h
+
+
+def hlines(ob):
+    """[0, lines] -> [0, [number of lines, hash]] (CaseC16.sx_hlines); errors unchanged"""
+    if ob[0] != 0:
+        return ob
+    h = 7
+    for ln in ob[1]:
+        h = (hash_text(h, ln) * HP) & HM
+    return [0, [len(ob[1]), h]]
+
+
+def htext(ob):
+    return ob if ob[0] != 0 else [0, [len(ob[1]), hash_text(7, ob[1])]]
+
+
 def rebuild_shape(depths):
     """Pre-order depth list -> nested tuples (a forest); None if it is not the
     depth list of a forest whose roots have the depth of the first entry."""
@@ -133,6 +156,7 @@ class Prop:
         "is-last-sibling is positional in the model (no following sibling); PROVED equal to the identity tests of the relationship-query model (C10: q_is_last of every ancestor's own context, get_parent_list order) for forests with unique node identities (theorem C16_flags_are_the_identity_tests_of_the_code); uniqueness of identities is C01",
         "the rendering of a node (repr string/callable) is an input of the model; the harness computes it independently of format()",
         "tree names need no escaping in repr(): title line is Cls<'name'>",
+        "to keep case terms small, Tree.format_iter(title=default/False) and Tree.format(join=) are compared with the model as full text, the other observations (titles True/text/'', every start node, system root) as (line count, 61-bit polynomial hash) computed by the same formula on both sides; the oracle always sees the full lines",
     ]
     manifest = dict(
         text=("Machine-checked theorems (Coq 8.16, no axioms): for ALL forests, start nodes, add_self, title settings and every 4-/6-segment "
@@ -153,8 +177,12 @@ class Prop:
     def _desc(self, shape, styles, i, typed=False):
         same = (i % 5 == 2)     # all nodes carry the same data object: siblings are == but not identical
         nodes = B.shape_to_nodes(shape, lambda k, d, s: ((i if same else k * 5 + i) % len(UNIV), ("k%d" % (k % 2)) if typed else None, f"id{k}"))
+        n = B.nodes_size(nodes)
+        # start nodes of Node.format_iter (pre-order indices): all of them in small trees, a spread of 7 in large ones
+        # (the deepest node is added in run()); Node.format(join=) on the first and last of them
+        starts = None if n <= 6 else sorted({0, n // 6, n // 3, n // 2, 2 * n // 3, 5 * n // 6, n - 1})
         return dict(typed=typed, univ=UNIV, nodes=nodes, name="T%d" % (i % 3), styles=styles,
-                    repr=REPR_MODES[i % 3], title=TITLE_TEXT, join=JOINS[i % len(JOINS)])
+                    repr=REPR_MODES[i % 3], title=TITLE_TEXT, join=JOINS[i % len(JOINS)], starts=starts)
 
     def descs(self, tier, rng):
         yield from CORPUS
@@ -208,30 +236,49 @@ class Prop:
         join = desc["join"]
         ttext = desc["title"]
         titles = [None, False, True, ttext, ""]
+        if desc.get("starts") is None:
+            snodes = list(nodes)
+        else:
+            idx = {k for k in desc["starts"] if 0 <= k < len(nodes)}
+            if nodes:
+                def pdepth(x):      # by pointers, not by the API under test
+                    d = 0
+                    while x._parent is not None:
+                        x = x._parent
+                        d += 1
+                    return d
+                deepest = max(range(len(nodes)), key=lambda k: (pdepth(nodes[k]), -k))
+                idx |= {deepest} | {k for k, x in enumerate(nodes) if x is nodes[deepest]._parent}
+            snodes = [nodes[k] for k in sorted(idx)]
+        jnodes = snodes[:1] + snodes[-1:] if len(snodes) > 2 else list(snodes)
 
         obs = []
         for st in desc["styles"]:
             a = style_arg(st)
             tr = [lines_obs(lambda: tree.format_iter(repr=rarg, style=a, title=ti)) for ti in titles]
             nd = [[lines_obs(lambda: n.format_iter(repr=rarg, style=a, add_self=True)),
-                   lines_obs(lambda: n.format_iter(repr=rarg, style=a, add_self=False))] for n in nodes]
+                   lines_obs(lambda: n.format_iter(repr=rarg, style=a, add_self=False))] for n in snodes]
             tj = text_obs(lambda: tree.format(repr=rarg, style=a, join=join))
-            nj = [text_obs(lambda: n.format(repr=rarg, style=a, join=join)) for n in nodes]
+            nj = [text_obs(lambda: n.format(repr=rarg, style=a, join=join)) for n in jnodes]
             sr = [lines_obs(lambda: tree.system_root.format_iter(repr=rarg, style=a, add_self=True)),
                   lines_obs(lambda: tree.system_root.format_iter(repr=rarg, style=a, add_self=False))]
             obs.append([tr, nd, tj, nj, sr])
 
         fail = None
         for st, o in zip(desc["styles"], obs):
-            fail = self.oracle(tree, nodes, rend, st, o, titles, join, typed)
+            fail = self.oracle(tree, snodes, jnodes, rend, st, o, titles, join, typed)
             if fail:
                 fail = f"{fail} [style {st}]"
                 break
 
+        # what is compared with the model: full text for title default/False and the joined text, hashes for the rest
+        obs = [[tr[:2] + [hlines(x) for x in tr[2:]], [[hlines(a), hlines(b)] for a, b in nd], tj, [htext(x) for x in nj],
+                [hlines(x) for x in sr]] for tr, nd, tj, nj, sr in obs]
         rends = H.coq_list(f"({H.nid(n)}, {H.coq_text(rend[id(n)])})" for n in nodes)
         cls = "TypedTree" if typed else "Tree"
         coq = (f"(mk16 {H.coq_forest(tree._root, U)} {rends} {H.coq_text(cls)} {H.coq_text(desc['name'])} "
-               f"{H.coq_list(coq_style(s) for s in desc['styles'])} {H.coq_text(ttext)} {H.coq_text(join)})")
+               f"{H.coq_list(coq_style(s) for s in desc['styles'])} {H.coq_text(ttext)} {H.coq_text(join)} "
+               f"{H.coq_list(str(H.nid(n)) for n in snodes)} {H.coq_list(str(H.nid(n)) for n in jnodes)})")
         depth = B.nodes_depth(desc["nodes"])
         max_sibs = max([len(p._children or []) for p in [tree._root] + nodes])
         return Case(desc=desc, coq_input=coq, impl_obs=obs, oracle_fail=fail,
@@ -240,7 +287,7 @@ class Prop:
                     stats=dict(nodes=len(nodes), depth=depth, max_sibs=max_sibs, styles=len(desc["styles"]), repr=mode, typed=typed))
 
     # ----- the property statement, executed directly on the emitted lines and the pointer structure
-    def oracle(self, tree, nodes, rend, st, o, titles, join, typed):
+    def oracle(self, tree, nodes, jnodes, rend, st, o, titles, join, typed):
         segs = segments(st)
         tr, nd, tj, nj, sr = o
         cls = "TypedTree" if typed else "Tree"
@@ -291,7 +338,9 @@ class Prop:
         # --- format(join=j) == j.join(format_iter())
         if tj != (tr[0] if tr[0][0] != 0 else [0, join.join(tr[0][1])]):
             return f"tree.format(join): got {tj!r}, format_iter gave {tr[0]!r}"
-        for n, (o1, _), j in zip(nodes, nd, nj):
+        by_node = {id(n): o1 for n, (o1, _) in zip(nodes, nd)}
+        for n, j in zip(jnodes, nj):
+            o1 = by_node[id(n)]
             if j != (o1 if o1[0] != 0 else [0, join.join(o1[1])]):
                 return f"node {H.nid(n)}.format(join): got {j!r}, format_iter gave {o1!r}"
         return None
